@@ -55,6 +55,11 @@ def import_module(it, name):
         v = hook(name, None)
         if v is not None:
             return v
+    if name == "copy":
+        m = types.ModuleType("copy")
+        m.copy = import_from(it, "copy", "copy")
+        m.deepcopy = import_from(it, "copy", "deepcopy")
+        return m
     raise Unsupported(f"import {name}")
 
 
